@@ -4,4 +4,6 @@ set -eu
 cd "$(dirname "$0")"
 export CARGO_NET_OFFLINE=true RUSTFLAGS="--cfg log4rs_verif" CARGO_TARGET_DIR="$PWD/target"
 (cd harness && cargo build --offline --profile verif)
+# the build with the library's `background_rotation` feature (used by C05 quick/thorough and C07 thorough)
+(cd harness && CARGO_TARGET_DIR="$PWD/../target-bg" cargo build --offline --profile verif --features background_rotation)
 echo "setup ok"
